@@ -91,6 +91,12 @@ func c48BkBody(shape, id string) []byte {
 func c48BackendAction(x *e2e.Exchange) e2e.Action {
 	id := x.Req.Header.Get("X-Id")
 	shape := x.Req.Header.Get("X-Bk")
+	switch shape {
+	case "drop": // the backend fails: connection closed without a reply (bfe answers with its internal 500)
+		return e2e.Action{CloseBefore: true}
+	case "304":
+		return e2e.Action{Raw: []byte("HTTP/1.1 304 Not Modified\r\nETag: \"c48\"\r\nX-Bk-Shape: 304\r\n\r\n")}
+	}
 	if shape == "" {
 		body := "backend id=" + id
 		if x.Req.Method == "HEAD" {
@@ -488,6 +494,15 @@ func c48JudgeStream(r *vkit.Run, c *c48SCase, o *c48SObs, ev []fEvent, arrivals 
 			nontrivial = true
 		}
 		calls := per[p]
+		if len(calls) == 0 && p == bfe_module.HandleRequestFinish && c.Kind == "stream" && (o.End == "eof" || o.End == "reset") {
+			// the request-finish point is passed by every request, whatever produced its reply (c48finish.go); the
+			// end of the connection was observed, so the request is over
+			r.Violation("order:HandleRequestFinish:chain-never-ran", fmt.Sprintf("no filter was called at HandleRequestFinish for a request whose connection has ended (script %q)", c.Script), w)
+			if k >= 0 && c48Honoured(p, s[k]) {
+				effs = append(effs, c48Eff{p, k, s[k]})
+			}
+			continue
+		}
 		if len(calls) == 0 {
 			continue
 		}
